@@ -25,10 +25,10 @@ func (o *cfgLayout) Init(c *Ctx) {
 }
 func (o *cfgLayout) NCases(string) int { return o.n }
 func (o *cfgLayout) Rule() string {
-	return "a case is one layout of a configuration (shipped test configuration, optionally plus generated classes with extends chains, overloads and namespaced frames): every file renamed so that Glob order is a seeded permutation, and 0-6 classes split into 2-3 fragment files interleaved with the others (all overloads of one method name stay together, in order); the ti node boots on the canonical and on the permuted layout for corpus and probe programs in diagnostics and -i mode. non-trivial = the load order really differs from the canonical one; distinct = distinct (load-order permutation digest, split set) layouts"
+	return "a case is one layout of a configuration (shipped test configuration, optionally plus generated classes with extends chains, overloads and namespaced frames): every file renamed so that Glob order is a seeded permutation, and 0-6 classes split into 2-3 fragment files interleaved with the others (all overloads of one method name stay together, in order; in a third of the splits they are separated too, keeping their relative load order); the ti node boots on the canonical and on the permuted layout for corpus and probe programs in diagnostics and -i mode. non-trivial = the load order really differs from the canonical one; distinct = distinct (load-order permutation digest, split set) layouts"
 }
 func (o *cfgLayout) ExpectedFaults() []string {
-	return []string{"rename-permutation", "split-class", "generated-classes"}
+	return []string{"rename-permutation", "split-class", "split-overloads", "generated-classes"}
 }
 
 // classFile is one config file decoded just enough to be re-fragmented.
@@ -60,6 +60,10 @@ type LayoutSpec struct {
 	Order  []string         `json:"order"`  // fragment ids ("file" or "file#k") in load order
 	Splits map[string][]int `json:"splits"` // file -> fragment index of each declaration group
 	NFrag  map[string]int   `json:"nfrag"`
+	// SplitOver: files whose overloads of one method name may land in different fragments.
+	// Their relative order is kept (a later overload never loads before an earlier one), so
+	// every method still sees its declarations in the order the unsplit class gives them.
+	SplitOver map[string]bool `json:"split_over,omitempty"`
 }
 
 var splitFields = []string{"instance_methods", "class_methods", "constants", "extends", "instance_properties", "instance_variables"}
@@ -71,7 +75,7 @@ type declGroup struct {
 	Idx   []int
 }
 
-func groupsOf(cf classFile) []declGroup {
+func groupsOf(cf classFile, perOverload bool) []declGroup {
 	var out []declGroup
 	for _, f := range splitFields {
 		raw, ok := cf.Obj[f]
@@ -89,7 +93,7 @@ func groupsOf(cf classFile) []declGroup {
 					Name string `json:"name"`
 				}
 				json.Unmarshal(el, &m)
-				if g, ok := byName[m.Name]; ok {
+				if g, ok := byName[m.Name]; ok && !perOverload {
 					out[g].Idx = append(out[g].Idx, i)
 				} else {
 					byName[m.Name] = len(out)
@@ -119,7 +123,7 @@ func applyLayout(canon map[string][]byte, spec *LayoutSpec) map[string][]byte {
 			frags[cf.Name] = canon[cf.Name]
 			continue
 		}
-		groups := groupsOf(cf)
+		groups := groupsOf(cf, spec.SplitOver[cf.Name])
 		for k := 0; k < spec.NFrag[cf.Name]; k++ {
 			obj := map[string]json.RawMessage{}
 			for key, v := range cf.Obj {
@@ -175,7 +179,10 @@ func generatedClasses(r *Rng) map[string][]byte {
 	n := r.Range(2, 5)
 	names := []string{"Gena", "Genb", "Genc", "Gend", "Gene"}[:n]
 	types := []string{"Int", "String", "Float", "Bool", "Array", "Hash", "Symbol"}
-	mnames := []string{"alpha", "beta", "gamma", "to_s", "size", "name"}
+	// some names are also declared by Object (to_s, inspect, ==, class, dup, nil?): a class or
+	// its parent then overrides them with another signature, and which one a call resolves
+	// to must not depend on the layout
+	mnames := []string{"alpha", "beta", "gamma", "to_s", "size", "name", "inspect", "==", "class", "dup", "nil?", "to_s", "inspect"}
 	for i, nm := range names {
 		type arg struct {
 			Type []string `json:"type"`
@@ -235,16 +242,31 @@ func probeProgram(r *Rng, cfg map[string][]byte) []byte {
 		if r.Chance(1, 2) {
 			sb.WriteString("v" + fmt.Sprint(k) + "." + r.Pick([]string{"to_s", "size", "alpha", "beta", "name", "zork"}) + "\n")
 		}
+		if r.Chance(1, 3) {
+			// methods Object declares, called on instances of generated classes (which may
+			// override them, directly or in a parent): the undefined follow-up call makes the
+			// diagnostic name the type the call resolved to
+			recv := r.Pick([]string{"Gena.new", "Genb.new", "Genc.new", "Gend.new", "Gene.new"})
+			m := r.Pick([]string{"to_s", "inspect", "class", "dup", "nil?", "alpha", "beta", "size", "name"})
+			sb.WriteString(fmt.Sprintf("o%d = %s.%s\no%d.zork\n", k, recv, m, k))
+			if r.Chance(1, 2) {
+				sb.WriteString(fmt.Sprintf("e%d = %s == %s\ne%d.zork\n", k, recv, g.lit(), k))
+			}
+		}
 		if r.Chance(1, 2) {
 			// a method declared for one class called on a receiver of another: declarations
 			// must not leak between classes whatever the load order
 			m := bs[r.Intn(len(bs))]
-			recv := r.Pick([]string{"1", "1.5", "\"s\"", "[1]", "{a: 1}", ":s", "nil", "(1..2)", "true", "Gena.new", "Genb.new", "Genc.new"})
+			recv := r.Pick([]string{"1", "1.5", "\"s\"", "[1]", "{a: 1}", ":s", "nil", "(1..2)", "true", "Gena.new", "Genb.new", "Genc.new", "Gend.new", "Gene.new",
+				"Integer", "String", "Array", "Hash", "Gena", "Genb", "Math", "Dir", "Object", "Symbol", "Float", "Range", "Proc"})
 			args := make([]string, 0, m.MinArgs)
 			for a := 0; a < m.MinArgs; a++ {
 				args = append(args, g.lit())
 			}
 			sb.WriteString("w" + fmt.Sprint(k) + " = " + recv + "." + m.Name + "(" + strings.Join(args, ", ") + ")\n")
+			if r.Chance(1, 2) {
+				sb.WriteString("w" + fmt.Sprint(k) + ".zork\n")
+			}
 		}
 	}
 	return []byte(sb.String())
@@ -274,7 +296,8 @@ func (o *cfgLayout) Make(c *Ctx, i int) *Case {
 		if cf.Obj == nil {
 			continue
 		}
-		g := groupsOf(cf)
+		over := r.Chance(1, 3)
+		g := groupsOf(cf, over)
 		if len(g) < 2 {
 			continue
 		}
@@ -284,6 +307,31 @@ func (o *cfgLayout) Make(c *Ctx, i int) *Case {
 			assign[j] = r.Intn(k)
 		}
 		assign[0], assign[len(assign)-1] = 0, k-1
+		if over {
+			// overloads of one name: fragment indexes non-decreasing in declaration order
+			last := map[string]int{}
+			for j, grp := range g {
+				if grp.Field != "instance_methods" && grp.Field != "class_methods" {
+					continue
+				}
+				var arr []json.RawMessage
+				json.Unmarshal(cf.Obj[grp.Field], &arr)
+				var m struct {
+					Name string `json:"name"`
+				}
+				json.Unmarshal(arr[grp.Idx[0]], &m)
+				key := grp.Field + "|" + m.Name
+				if prev, ok := last[key]; ok && assign[j] < prev {
+					assign[j] = prev
+				}
+				last[key] = assign[j]
+			}
+			if spec.SplitOver == nil {
+				spec.SplitOver = map[string]bool{}
+			}
+			spec.SplitOver[cf.Name] = true
+			cs.Faults = append(cs.Faults, "split-overloads")
+		}
 		spec.Splits[cf.Name] = assign
 		spec.NFrag[cf.Name] = k
 	}
@@ -300,6 +348,18 @@ func (o *cfgLayout) Make(c *Ctx, i int) *Case {
 	for j := len(ids) - 1; j > 0; j-- {
 		k := r.Intn(j + 1)
 		ids[j], ids[k] = ids[k], ids[j]
+	}
+	// fragments of a class whose overloads were separated keep their relative load order
+	for f := range spec.SplitOver {
+		var pos []int
+		for j, id := range ids {
+			if strings.HasPrefix(id, f+"#") {
+				pos = append(pos, j)
+			}
+		}
+		for n, j := range pos {
+			ids[j] = fmt.Sprintf("%s#%d", f, n)
+		}
 	}
 	spec.Order = ids
 	cs.Faults = append(cs.Faults, "rename-permutation")
@@ -406,7 +466,7 @@ func (o *cfgLayout) Shrinks(c *Ctx, cs *Case) []*Case {
 	}
 	// undo one split
 	for f := range spec.Splits {
-		sp := LayoutSpec{Splits: map[string][]int{}, NFrag: map[string]int{}}
+		sp := LayoutSpec{Splits: map[string][]int{}, NFrag: map[string]int{}, SplitOver: spec.SplitOver}
 		for g, a := range spec.Splits {
 			if g != f {
 				sp.Splits[g], sp.NFrag[g] = a, spec.NFrag[g]
@@ -438,7 +498,7 @@ func (o *cfgLayout) Shrinks(c *Ctx, cs *Case) []*Case {
 				nc[n] = b
 			}
 		}
-		sp := LayoutSpec{Splits: map[string][]int{}, NFrag: map[string]int{}}
+		sp := LayoutSpec{Splits: map[string][]int{}, NFrag: map[string]int{}, SplitOver: spec.SplitOver}
 		for g, a := range spec.Splits {
 			if g != f {
 				sp.Splits[g], sp.NFrag[g] = a, spec.NFrag[g]
